@@ -1,4 +1,4 @@
-import AllfedModel.Model.Scenario
+import AllfedModel.Model.ScenarioSpec
 /-!
 Helper lemmas for property C13 (scenario options): the exactly-once flag machine, the store frame
 lemmas, the dispatcher in one and in two phases, string lemmas for the head-count override key.
@@ -828,29 +828,6 @@ theorem ruleMatches_mem (opts : Dict α) (conds : List (String × List String)) 
 end
 
 /-! ## reading a setter off the table, for comparison with the hand-written specification -/
-
-/-- the value a key is given -/
-inductive SpecVal
-  | ex (e : Ex)
-  | list (l : List Ex)
-  | rep (v n : Ex)
-  deriving DecidableEq, Repr
-
-/-- what a setter is documented to do -/
-structure Spec where
-  name : String
-  params : List String
-  /-- the `*_SET` flags it asserts clear and then sets -/
-  family : List String
-  /-- `some true`: only for the global analysis, `some false`: only for a country, `none`: both -/
-  scope : Option Bool
-  /-- `self.IS_GLOBAL_ANALYSIS = …` (the two initialisers) -/
-  setsScope : Option Bool
-  /-- keys that must already be present (`assert "K" in constants_for_params.keys()`) -/
-  needs : List String
-  /-- every assignment `constants_for_params[path] = value`, in execution order (helpers inlined) -/
-  writes : List (String × SpecVal)
-  deriving DecidableEq, Repr
 
 /-- the assignments of a body in execution order (a later assignment to the same path wins; an
     assignment of `{}` to a path discards what was stored below it) -/
